@@ -24,8 +24,8 @@ def run(rep, work, tier, seed):
         mc = dict(NTasks=2, Types=["A", "B"], Vals=[1, 2], MaxDepth=2, MaxOps=5, SupKind="tiny", Bug="none")
         conf = dict(NTasks=2, Types=["A", "B"], Vals=[1, 2], MaxDepth=2, MaxOps=4, SupKind="tiny", Bug="none")
     else:
-        mc = dict(NTasks=3, Types=["A", "B"], Vals=[1, 2], MaxDepth=2, MaxOps=6, SupKind="tiny", Bug="none")
-        conf = dict(NTasks=3, Types=["A", "B"], Vals=[1, 2], MaxDepth=2, MaxOps=5, SupKind="tiny", Bug="none")
+        mc = dict(NTasks=3, Types=["A", "B"], Vals=[1, 2], MaxDepth=2, MaxOps=5, SupKind="tiny", Bug="none")
+        conf = dict(NTasks=3, Types=["A", "B"], Vals=[1, 2], MaxDepth=2, MaxOps=4, SupKind="tiny", Bug="none")
     rep.extra["constants"] = dict(model=mc, conformance=conf)
     leg_m(rep, work, SPEC, f"mc_{tier}", cfg_text(mc, spec="Spec", invariants=INVS, properties=PROPS),
           expect_actions=["Enter", "Leave", "Start", "End"], timeout=3000)
